@@ -207,7 +207,7 @@ func cmdCheck(args []string) int {
 		return engineErr("%v", lerr)
 	}
 	all = append(all, lemObls...)
-	work := filepath.Join(verifDir, "work", prop)
+	work := filepath.Join(outDir, "work", prop)
 	os.RemoveAll(work)
 	if err := Discharge(all, work, timeout); err != nil {
 		return engineErr("%v", err)
@@ -371,9 +371,9 @@ func cmdCheck(args []string) int {
 		"wall_s":      time.Since(start).Seconds(),
 		"violations":  nviol,
 	}
-	os.MkdirAll(filepath.Join(verifDir, "evidence"), 0o755)
+	os.MkdirAll(filepath.Join(outDir, "evidence"), 0o755)
 	data, _ := json.MarshalIndent(ev, "", " ")
-	if err := os.WriteFile(filepath.Join(verifDir, "evidence", prop+".json"), data, 0o644); err != nil {
+	if err := os.WriteFile(filepath.Join(outDir, "evidence", prop+".json"), data, 0o644); err != nil {
 		return engineErr("cannot write evidence: %v", err)
 	}
 	fmt.Printf("property=%s tier=%s functions=%d obligations=%d discharged=%d known-findings=%d violations=%d solver=%.1fs wall=%.1fs\n",
